@@ -19,7 +19,7 @@ tvars == <<vars, l>>
 
 TUsers == {"a", "b", "c"}
 TOthers == {"z", "realm", "dep", "coll"}
-TVars == {"x", "y", "pv"}
+TVars == {"x", "y", "pv", "blob"}
 PreGasMax == 4000000   \* generous bound on the metered pre-ante reads (measured: 1.3-1.7 M)
 
 Ln == TheTrace[l]
